@@ -44,8 +44,6 @@ META = {
                  'destroying a master is not part of the quantifier (create/assign/set/restore)'],
     'assumptions': ['the theorem versions_are_history holds for histories without a failing update only: the code snapshots on '
                     'the before-event (known finding ' + KEY_FAILED + ')',
-                    'per-connection theorem: every restore is on the default database; Version.restore() fetches the master '
-                    'through the default connection (known finding ' + KEY_RESTORE_CONN + ')',
                     'one live instance per row and connection (the identity map, C04); the cache=False stream checks that the '
                     'held master shows the row after every step'],
     'exhaustive': False,
@@ -372,10 +370,6 @@ def gen_case(rng, clean, mode='mem'):
                 kw = tuple((k, v) for k, v in kw if k < NCOLS)
             ops.append((d, ('S', m, kw)))
             nv[d] += 1
-        elif mode == 'tx' or d != 0:
-            # restore() of a master bound to an explicit connection: known finding, replayed by its own witness
-            ops.append((d, ('A', m, rng.randint(0, NCOLS - 1), gen_val(rng, bad))))
-            nv[d] += 1
         else:
             ops.append((d, ('R', rng.randint(1, max(1, nv[d])) if rng.random() < 0.95 else nv[d] + 3)))
             nv[d] += 1
@@ -403,11 +397,12 @@ def corpus_cases():
 
 # the counter-witness of C20_versions_are_history_full_FALSE, replayed on the real code on every run
 WITNESS = {'mode': 'mem', 'uniq0': False, 'ops': [('C', ((0, 1),)), ('A', 1, 1, BAD)]}
-# the counter-witness of C20_restore_explicit_connection_full_FALSE
+# restore() of a master bound to an explicit connection restored the same-id master of the default database
+# (fixed by 14bb19e; kept as a corner case, key 'C20:restore-ignores-explicit-connection')
 WITNESS_CONN = {'mode': 'twodb', 'uniq0': False,
                 'ops': [(0, ('C', ((0, 1),))), (1, ('C', ((0, 10),))), (1, ('A', 1, 0, 11)), (1, ('R', 1))]}
 # the same call inside a transaction (the master is not visible to the default connection: SQLObjectNotFound)
-WITNESS_TX = {'mode': 'tx', 'uniq0': False, 'nomodel': True, 'ops': [('C', ((0, 5),)), ('A', 1, 0, 6), ('R', 1)]}
+WITNESS_TX = {'mode': 'tx', 'uniq0': False, 'ops': [('C', ((0, 5),)), ('A', 1, 0, 6), ('R', 1)]}
 CANON = {KEY_FAILED: WITNESS, KEY_RESTORE_CONN: WITNESS_CONN}
 
 
@@ -419,11 +414,11 @@ def run(ctx):
     env()
     rng = ctx.rng
     cases = [WITNESS, WITNESS_CONN, WITNESS_TX] + corpus_cases()
-    n = ctx.budget(560, 7000)
+    n = ctx.budget(800, 7000)
     for i in range(n):
         mode = ('mem', 'mem', 'nocache', 'twodb')[i % 4]
         cases.append(gen_case(rng, clean=(i % 3 != 2), mode=mode))
-    for i in range(ctx.budget(40, 400)):
+    for i in range(ctx.budget(60, 400)):
         cases.append(gen_case(rng, clean=(i % 3 != 2), mode='tx'))
     outs = ctx.model([line_of(c) for c in cases])
     for i, case in enumerate(cases):
